@@ -130,7 +130,7 @@ def build_pool(ctx, index):
     ddesc["SUIT_Envelope_Tagged"]["suit-manifest"]["suit-validate"] = deep
     with open(P("deep.json"), "w") as fh:
         fh.write(_dumps_deep(ddesc))
-    ops.append({"kind": "create", "input": P("deep.json"), "family": "create", "expect_error": True})
+    ops.append({"kind": "create", "input": P("deep.json"), "family": "create", "expect_error": True, "heavy_when_logging": True})
     # hierarchy by path: parent refers to a child envelope file
     sut.dump_desc(_desc_min(9, "nordicsemi.com", "nRF54H20_sample_app", {"suit-integrated-payloads": {"#p": "0011"}}), P("child.json"))
     prep.append({"kind": "create", "input": P("child.json"), "save_as": {"out.suit": P("child.suit")}})
@@ -172,6 +172,41 @@ def build_pool(ctx, index):
     prep.append({"kind": "cache-payloads", "eb": 32, "inputs": [f"#y,{P('blob0.bin')}"], "save_as": {"c.cache": P("c1.cache")}})
     ops.append({"kind": "cache-merge", "eb": 16, "inputs": [P("c0.cache"), P("c1.cache")], "family": "cache"})
     ops.append({"kind": "cache-envelope", "eb": 16, "input": P("boot_root.suit"), "omit": None, "dep": None, "family": "cache"})
+    # hierarchical envelope (root -> #app -> payload #p, plus a root payload) taken apart with --dependency-regex, twice with other settings
+    prep.append({"kind": "create", "input": P("pdesc.yaml"), "save_as": {"out.suit": P("parent.suit")}})
+    ops.append({"kind": "cache-envelope", "eb": 16, "input": P("parent.suit"), "omit": None, "dep": "#app", "family": "cache"})
+    ops.append({"kind": "cache-envelope", "eb": 64, "input": P("parent.suit"), "omit": "#nomatch", "dep": "#a.*", "family": "cache"})
+    ops.append({"kind": "cache-envelope", "eb": 8, "input": P("parent.suit"), "omit": "#p", "dep": "#app", "family": "cache"})
+    # nesting given inline: valid (depth 2 and 3) ...
+    leaf = _desc_min(11, "nordicsemi.com", "nRF54H20_sample_rad", {"suit-integrated-payloads": {"#l": "beef"}})
+    mid = _desc_min(12, "nordicsemi.com", "nRF54H20_sample_app", {"suit-integrated-dependencies": {"#leaf": leaf}})
+    for i, inner in enumerate((leaf, mid)):
+        nd = _desc_min(13 + i, "nordicsemi.com", "nRF54H20_sample_root", {"suit-integrated-dependencies": {"#in": inner}})
+        nd["SUIT_Envelope_Tagged"]["suit-manifest"]["suit-candidate-verification"] = [{"suit-directive-override-parameters": {
+            "suit-parameter-image-digest": {"suit-digest-algorithm-id": "cose-alg-sha-256", "suit-digest-bytes": {"envelope": inner}}, "suit-parameter-image-size": {"envelope": inner}}}]
+        sut.dump_desc(nd, P(f"nested{i}.{'json' if i else 'yaml'}"))
+        ops.append({"kind": "create", "input": P(f"nested{i}.{'json' if i else 'yaml'}"), "family": "create"})
+    # ... and operations that are REFUSED when run alone: each must be refused in the same way after anything else, and - more important -
+    # must leave nothing behind that changes a later valid operation (state that is set up before an exception and never reset)
+    bad_leaf = _desc_min(20, "a", "b")
+    bad_leaf["SUIT_Envelope_Tagged"]["suit-manifest"]["suit-no-such-member"] = 1
+    bad = bad_leaf
+    for lvl in range(7):
+        bad = _desc_min(21 + lvl, "a", f"l{lvl}", {"suit-integrated-dependencies": {"#d": bad}})
+        if lvl < 2:  # (an {envelope: ...} reference converts the nested description once more: only on the two innermost levels, the cost doubles per level)
+            bad["SUIT_Envelope_Tagged"]["suit-manifest"]["suit-candidate-verification"] = [{"suit-directive-override-parameters": {
+                "suit-parameter-image-digest": {"suit-digest-algorithm-id": "cose-alg-sha-256", "suit-digest-bytes": {"envelope": bad["SUIT_Envelope_Tagged"]["suit-integrated-dependencies"]["#d"]}}}}]
+        if lvl in (1, 6):
+            sut.dump_desc(bad, P(f"badnest{lvl}.json"))
+            ops.append({"kind": "create", "input": P(f"badnest{lvl}.json"), "family": "create", "expect_error": True})
+    with open(P("garbage.suit"), "wb") as fh:
+        fh.write(bytes.fromhex("d86ba2025827815824822f5820") + b"\x00" * 8)
+    ops.append({"kind": "parse", "input": P("garbage.suit"), "fmt": "json", "hierarchy": True, "family": "parse", "expect_error": True})
+    ops.append({"kind": "mpi-merge", "addr": 0x1000, "size": 96, "files": [P("mpi0.hex"), P("mpi0.hex")], "family": "mpi", "expect_error": True})
+    ops.append({"kind": "cache-payloads", "eb": 16, "inputs": [f"#a,{P('blob1.bin')}", f"#a,{P('blob2.bin')}"], "family": "cache", "expect_error": True})
+    ops.append({"kind": "cache-envelope", "eb": 16, "input": P("boot_root.suit"), "omit": None, "dep": "#x", "family": "cache", "expect_error": True})
+    ops.append({"kind": "sign", "input": P("boot_root.suit"), "key": "no-such-key", "kid": 1, "alg": "es-256", "keys": P("keys"), "family": "sign", "expect_error": True})
+    ops.append({"kind": "sign", "input": P("boot_root.suit"), "key": "ed", "kid": 1, "alg": "es-256", "keys": P("keys"), "family": "sign", "expect_error": True})
     # sign / encrypt
     kd = P("keys")
     os.makedirs(kd, exist_ok=True)
@@ -242,7 +277,7 @@ def describe(op):
         ({"inputs": [os.path.basename(x) for x in op.get("inputs", op.get("files", []))]} if ("inputs" in op or "files" in op) else {})
 
 
-def make_machine(ctx, acc, pool, refs):
+def make_machine(ctx, acc, pool, refs, light=False):
     from hypothesis import strategies as st
     from hypothesis.stateful import RuleBasedStateMachine, rule
 
@@ -285,6 +320,8 @@ def make_machine(ctx, acc, pool, refs):
 
         @rule(i=st.integers(0, n - 1))
         def run(self, i):
+            if light and pool["ops"][i].get("heavy_when_logging"):
+                i = 0  # with call logging on (guard off) this operation alone takes 20 s of log formatting
             op = pool["ops"][i]
             self.history.append({"run": i, "op": describe(op)})
             state["log"].append(i)
@@ -390,9 +427,14 @@ def run_shard(ctx, spec):
         errs = [i for i in range(n) if "ok" not in refs[i] and not pool["ops"][i].get("expect_error")]
         if errs and not acc.failures:
             raise boot.HarnessError(f"pool operations fail on their own: {[describe(pool['ops'][i]) for i in errs]} -> {[refs[i] for i in errs]}")
+        accepted = [i for i in range(n) if "ok" in refs[i] and pool["ops"][i].get("expect_error")]
+        if accepted and not acc.failures:
+            raise boot.HarnessError(f"pool operations meant to be refused are accepted on their own: {[describe(pool['ops'][i]) for i in accepted]}")
+        acc.note("refused-operations-in-pool", sum(1 for op in pool["ops"] if op.get("expect_error")))
         return acc
-    refs = {(i, tuple(0 for _ in pool["ops"][i].get("reads", [])) or 0): r for i, r in references(pool, list(range(n)), guard=guard).items()}
-    run_machine(ctx, acc, "sequence", make_machine(ctx, acc, pool, refs), seed=ctx.seed * 1000 + spec["pool"] * 10 + spec.get("variant", 0), n=spec["n"], steps=spec["steps"])
+    idx = [i for i in range(n) if guard or not pool["ops"][i].get("heavy_when_logging")]
+    refs = {(i, tuple(0 for _ in pool["ops"][i].get("reads", [])) or 0): r for i, r in references(pool, idx, guard=guard).items()}
+    run_machine(ctx, acc, "sequence", make_machine(ctx, acc, pool, refs, light=not guard), seed=ctx.seed * 1000 + spec["pool"] * 10 + spec.get("variant", 0), n=spec["n"], steps=spec["steps"])
     return acc
 
 
